@@ -124,7 +124,7 @@ PROPS["C20"] = {
         H("relpath_no_panic_unconstrained_2x2", "nitrogql-utils", RP, "utils/relpath_h.rs", "verif_relpath", _RPF,
           "a, b: / + up to 2 symbolic components, NO no-climb precondition; panic freedom only", timeout=1200, mem_gb=12, has_mutant=False),
         H("inverse_law_4x4", "nitrogql-utils", RP, "utils/relpath_h.rs", "verif_relpath", _RPF,
-          "a, b: / + up to 4 symbolic components each from {x, y, ., ..}", tiers=("thorough",), timeout=10800, mem_gb=30),
+          "a, b: / + up to 4 symbolic components each from {x, y, ., ..}", tiers=("thorough",), timeout=7200, mem_gb=30),
     ],
 }
 
@@ -168,7 +168,7 @@ for _pid, _pre in (("C03", "c03_typecompat_sound"), ("C04", "c04_typecompat_comp
         ] + [
             H(_pre + "_d4_s%d" % _r, "nitrogql-checker", CK + "common.rs", "checker/typecompat_h.rs", "verif_typecompat", ["common::check_type_compatibility"],
               "variable type: rows %s of the 19 well-formed wrapper nestings of depth <= 4; location type: all 19; symbolic selectors, names symbolic over {A, B}" % _rows,
-              tiers=("thorough",), timeout=3600, mem_gb=20)
+              tiers=("thorough",), timeout=3600, mem_gb=14)
             for _r, _rows in ((0, "0-3"), (1, "4-7"), (2, "8-9"), (3, "10-11"), (4, "12-13"), (5, "14-15"), (6, "16-17"), (7, "18"))
         ],
     }
